@@ -81,6 +81,13 @@ def run(ctx: Ctx, tier: str) -> Result:
                          "later reference to that object dangles" % tok, path=g.fmt_chain(e[tok])))
     rets = [r for r in t.nodes_in(pv, ast.Return)]
     vsp = p.cls(VSP)
+    def _tbl(e, f_):
+        """text of the table expression, a local alias of it (`lookup = self.__var_lookup`) read through"""
+        if isinstance(e, ast.Name):
+            lb_ = t.local_bindings(f_, e.id)
+            if len(lb_) == 1 and lb_[0][0] == "assign" and lb_[0][1][2] is None and lb_[0][1][1] is not None:
+                return norm(lb_[0][1][1])
+        return norm(e)
     av = vsp.lookup("append_variable")
     st = [n for n in t.nodes_in(av, ast.Assign) if isinstance(n.targets[0], ast.Subscript)]
     uncond = len(st) == 1 and not paths.conditions(p, st[0], av) and not paths.enclosing_loops(p, st[0], av) and ctx.guards.catching_try(st[0], av, "Exception") is None
@@ -88,7 +95,7 @@ def run(ctx: Ctx, tier: str) -> Result:
         res.fail(Finding("C07.ENTRY", av.qname, st[0], av.loc(st[0]), "append_variable stores the entry only when `%s`: an id that was issued (and stays in the identity cache) is left without "
                          "its entry, and every reference to that object - from its parent, a frame, a watch - points at nothing" % (
                              " and ".join(("" if pol else "not ") + norm(c_) for c_, pol in paths.conditions(p, st[0], av))[:80] or "no exception occurs")))
-    elif len(st) == 1 and norm(st[0].targets[0].slice) == av.params[1] and norm(st[0].value) == av.params[2] and "var_lookup" in norm(st[0].targets[0].value):
+    elif len(st) == 1 and norm(st[0].targets[0].slice) == av.params[1] and norm(st[0].value) == av.params[2] and "var_lookup" in _tbl(st[0].targets[0].value, av):
         res.ok("C07.ENTRY", {"append_variable": norm(st[0])})
     else:
         res.fail(Finding("C07.ENTRY", av.qname, "<lookup[var_id] = variable>", av.loc(), "append_variable does not store the variable under its id in the table"))
@@ -117,7 +124,7 @@ def run(ctx: Ctx, tier: str) -> Result:
                          "children may be attached to an id without a table entry (process_children guard %s, entry dominates `process_children=True` return %s, parent id %s)" % (okc, bool(ok_dom), parent_arg)))
     ach = vsp.lookup("append_child")
     sub = [n for n in t.nodes_in(ach, ast.Subscript) if isinstance(n.ctx, ast.Load)]
-    if sub and "var_lookup" in norm(sub[0].value) and norm(sub[0].slice) == ach.params[1] and \
+    if sub and "var_lookup" in _tbl(sub[0].value, ach) and norm(sub[0].slice) == ach.params[1] and \
             any(isinstance(c.func, ast.Attribute) and c.func.attr == "append" and c.args and norm(c.args[0]) == ach.params[2] for c in t.calls_in(ach)):
         res.ok("C07.CHILD", {"append_child": "lookup[parent].children.append(child)"})
     else:
@@ -420,7 +427,7 @@ def later_none_test(ctx: Ctx, f, ctor_call) -> str:
         tgt = st_.targets[0]
         name = norm(tgt.elts[0]) if isinstance(tgt, ast.Tuple) else norm(tgt)
         tests = [n for n in t.nodes_in(cf, ast.Compare) if norm(n.left) == "%s.vid" % name and "None" in norm(n)] + \
-                [n for n in t.nodes_in(cf, ast.Compare) if norm(n.left) == "%s.vid" % name and isinstance(n.ops[0], ast.In)]
+                [n for n in t.nodes_in(cf, ast.Compare) if norm(n.left) == "%s.vid" % name and isinstance(n.ops[0], (ast.In, ast.NotIn))]
         # looked up with a default and the outcome tested: entry = table.pop(ref.vid, None) / table.get(ref.vid); if entry is not None
         for a_ in t.nodes_in(cf, ast.Assign):
             v_ = a_.value
